@@ -25,7 +25,9 @@ def register(gen, T):
         out = ["import RsslVerif.Gen.SlotTables\nimport RsslVerif.Gen.CompileTables\n",
                T.header("MetaTables", ["hlsl/src/ast_generate.rs", "msl/src/generator/pipeline.rs", "ir/src/export.rs",
                                        "ast/src/ast_globals.rs", "formatter/src/formatter.rs", "src/compile.rs",
-                                       "ir/src/ir_module.rs", "hlsl/src/names.rs", "msl/src/names.rs"]),
+                                       "ir/src/ir_module.rs", "hlsl/src/names.rs", "msl/src/names.rs",
+                                       "ir/src/intrinsic_data.rs", "typer/src/typer/pipelines.rs", "typer/src/typer/globals.rs",
+                                       "ir/src/simplify_cbuffers.rs", "msl/src/generator.rs"]),
                "open RsslVerif.Gen.SlotTables RsslVerif.Gen.CompileTables\n\n"]
         out.append("/-- `DescriptorType` (ir/src/export.rs) -/\ninductive DescT where\n" + "".join(f"  | {d}\n" for d in descs) +
                    "  deriving DecidableEq, Repr, Inhabited\n\n")
@@ -322,6 +324,73 @@ def register(gen, T):
                 raise ExtractError(f"{which}: RESERVED_NAMES empty")
             return names
 
+        # free intrinsic functions: they live in the function registry next to the user's functions, so `add_stage`
+        # (which looks an entry point up by name among *all* functions) sees them too
+        intr = T.src("ir/src/intrinsic_data.rs")
+        im = re.search(r'const INTRINSICS: &\[IntrinsicDefinition\] = &\[', intr)
+        if not im:
+            raise ExtractError("intrinsic_data.rs: INTRINSICS not found")
+        from rustsrc import matching
+        ii = im.end() - 1
+        ij = matching(intr, ii)
+        inames = []
+        for mm in re.finditer(r'f!\s*\{\s*[A-Za-z0-9_<>]+\s+([A-Za-z_][A-Za-z0-9_]*)\s*\(', intr[ii:ij]):
+            if mm.group(1) not in inames:
+                inames.append(mm.group(1))
+        if len(inames) < 50:
+            raise ExtractError(f"intrinsic_data.rs: only {len(inames)} intrinsic function names found")
+        reg_all = bool(re.search(r'for id in context\.module\.function_registry\.iter\(\) \{ let name = context\.module\.function_registry\.get_function_name\(id\); '
+                                 r'if name == entry_name \{ if func_id\.is_some\(\) \{ return Err\(TyperError::PipelineEntryPointFunctionUnknown\(location\)\); \} func_id = Some\(id\); \} \}',
+                                 normws(fn_body(T.src("typer/src/typer/pipelines.rs"), "add_stage"))))
+        out.append("/-- names of the free intrinsic functions (ir/src/intrinsic_data.rs INTRINSICS) -/\n"
+                   "def intrinsicFunctionNames : List String := " + T.lean_list(lean_str(n) for n in inames) + "\n\n")
+        out.append(f"/-- add_stage finds the entry function by name among all functions of the registry and refuses a second match -/\n"
+                   f"def entryLookupIsByNameAmongAllFunctions : Bool := {b(reg_all)}\n\n")
+        # ---- the pipeline front end (typer/src/typer/pipelines.rs) and the places names come from
+        pp = normws(fn_body(T.src("typer/src/typer/pipelines.rs"), "parse_pipeline"))
+        ast_ = normws(fn_body(T.src("typer/src/typer/pipelines.rs"), "add_stage"))
+        gl = normws(T.src("typer/src/typer/globals.rs"))
+        hl_all = normws(hlsl)
+        simp_cb = normws(T.src("ir/src/simplify_cbuffers.rs"))
+        hl_fn = normws(T.src("hlsl/src/ast_generate.rs"))
+        msl_gen = normws(T.src("msl/src/generator.rs"))
+
+        def order(text, *needles):
+            pos = [text.find(n) for n in needles]
+            return all(p >= 0 for p in pos) and pos == sorted(pos)
+
+        stage_arms = all(re.search(r'"%sShader" => add_stage\( &property\.value, ir::ShaderStage::%s, context, &mut pipeline, \)\?,' % (k, k), pp)
+                         for k in ["Vertex", "Pixel", "Compute", "Task", "Mesh"])
+        ffacts = {
+            "stagePropertiesBecomeStagesInSourceOrder": stage_arms and bool(re.search(r'for property in &def\.properties \{ match property\.property\.as_str\(\) \{ "VertexShader"', pp)),
+            "checksInModelledOrder": order(pp, "PipelineAlreadyDefined", "PipelinePropertyDuplicate", '"VertexShader" =>', "PipelineNoEntryPoint",
+                                           "PipelineInvalidStageCombination", "PipelinePropertyRequiresGraphicsPipeline"),
+            "computeStandsAlone": bool(re.search(r'let is_compute = pipeline\.stages\[0\]\.stage == ir::ShaderStage::Compute; if is_compute \{ if pipeline\.stages\.len\(\) != 1 \{ return Err\(TyperError::PipelineInvalidStageCombination\( pipeline\.name\.location, \)\); \} \} else \{ for stage in &pipeline\.stages \{ if stage\.stage == ir::ShaderStage::Compute \{ return Err\(TyperError::PipelineInvalidStageCombination\(', pp)),
+            "fourGraphicsOnlyPropertyGroups": len(re.findall(r'if is_compute \{ return Err\(TyperError::PipelinePropertyRequiresGraphicsPipeline\(', pp)) == 4
+                                              and not re.search(r'"BlendState" => \{ if is_compute', pp),
+            "graphicsStateOnlyForNonCompute": bool(re.search(r'if !is_compute \{ pipeline\.graphics_pipeline_state = Some\(gpo\); \}', pp)),
+            "defaultBindGroupProperty": bool(re.search(r'"DefaultBindGroup" => \{ let value = extract_uint32\(&property\.value, context\)\?; pipeline\.default_bind_group_index = value; \}', pp))
+                                        and bool(re.search(r'default_bind_group_index: 0,', pp)),
+            "entryMustHaveBodyAndBeNoTemplate": bool(re.search(r'let is_template = !context \.module \.function_registry \.get_function_signature\(func_id\) \.template_params \.is_empty\(\); if is_template \{ return Err\(TyperError::PipelineEntryPointFunctionUnknown\(location\)\); \}', ast_))
+                                                and bool(re.search(r'\.get_function_implementation\(func_id\) \{ Some\(function_impl\) => function_impl, None => return Err\(TyperError::PipelineEntryPointFunctionUnknown\(location\)\), \};', ast_)),
+            "lastNumThreadsAttributeWins": bool(re.search(r'for attribute in &function_impl\.attributes\.clone\(\) \{ if let ir::FunctionAttribute::NumThreads\(x, y, z\) = attribute \{', ast_))
+                                           and bool(re.search(r'thread_group_size = Some\(\(x, y, z\)\); \} \} def\.stages\.push\(ir::PipelineStage \{ stage, entry_point: func_id, thread_group_size, \}\);', ast_))
+                                           and "break" not in ast_,
+            "staticSamplerWithIndexRefused": bool(re.search(r'if gv_ir\.static_sampler\.is_some\(\) && gv_ir\.lang_slot\.index\.is_some\(\) \{ return Err\(TyperError::StaticSamplerUnexpectedBindingIndex\(', gl)),
+            "vkBindingAlwaysSetsTheIndex": len(re.findall(r'result\.binding_index_override = Some\(binding_index\);', gl)) == 2,
+            "hlslCbufferNameIsSourceName": bool(re.search(r'fn get_constant_buffer_name\(&self, id: ir::ConstantBufferId\) -> Result<&str, GenerateError> \{ match self\.module\.cbuffer_registry\.get\(id\.0 as usize\) \{ Some\(cd\) => Ok\(cd\.name\.as_str\(\)\),', hl_fn)),
+            "hlslGlobalAndFunctionNamesFromNameMap": bool(re.search(r'Ok\(self\.name_map\.get_name_leaf\(NameSymbol::GlobalVariable\(id\)\)\)', hl_fn))
+                                                     and bool(re.search(r'fn get_function_name\(&self, id: ir::FunctionId\) -> Result<&str, GenerateError> \{ Ok\(self\.name_map\.get_name_leaf\(NameSymbol::Function\(id\)\)\) \}', hl_fn)),
+            "mslCbufferBecomesGlobalAndTypeStruct": bool(re.search(r'name: Located::none\(format!\("\{\}Type", cbuffer\.name\.node\)\), namespace: cbuffer\.namespace,', simp_cb))
+                                                    and bool(re.search(r'module\.global_registry\.push\(GlobalVariable \{ name: cbuffer\.name, namespace: cbuffer\.namespace,', simp_cb)),
+            "hlslPrintsEveryNumThreadsAttribute": bool(re.search(r'ir::FunctionAttribute::NumThreads\(x, y, z\) => \{ let x = generate_expression\(x, context\)\?; let y = generate_expression\(y, context\)\?; let z = generate_expression\(z, context\)\?; ast::Attribute \{ name: Vec::from\(\[Located::none\("numthreads"\.to_string\(\)\)\]\), arguments: Vec::from\(\[Located::none\(x\), Located::none\(y\), Located::none\(z\)\]\),', hl_fn)),
+            "mslPrintsTheProductPerAttributeOnTheEntry": bool(re.search(r'ir::FunctionAttribute::NumThreads\(x, y, z\) => \{ if entry_point \{ .*?ast::BinOp::Multiply, Box::new\(Located::none\(ast::Expression::BinaryOperation\( ast::BinOp::Multiply, Box::new\(Located::none\(x\)\), Box::new\(Located::none\(y\)\), \)\)\), Box::new\(Located::none\(z\)\), \); Some\(ast::Attribute \{ name: Vec::from\(\[Located::none\( "max_total_threads_per_threadgroup"\.to_string\(\), \)\]\),', msl_gen))
+                                                         and bool(re.search(r'for attribute in &context \.module \.function_registry \.get_function_implementation\(stage\.entry_point\) \.as_ref\(\) \.unwrap\(\) \.attributes \{ if let Some\(attr\) = super::generate_function_attribute\(attribute, true, context\)\? \{ attributes\.push\(attr\); \} \}', gp)),
+            "nameMapsBuiltFromReservedNames": bool(re.search(r'NameMap::build\(module, RESERVED_NAMES, true\)', hl_fn)) and bool(re.search(r'NameMap::build\(module, RESERVED_NAMES, false\)', msl_gen)),
+        }
+        out.append("/-- syntactic facts about parse_pipeline / add_stage and about where reported names come from -/\nstructure FrontFacts where\n"
+                   + "".join(f"  {k} : Bool\n" for k in ffacts) + "  deriving DecidableEq, Repr\n\n")
+        out.append("def frontFacts : FrontFacts := { " + ", ".join(f"{k} := {b(v)}" for k, v in ffacts.items()) + " }\n\n")
         out.append("def hlslReserved : List String := " + T.lean_list(lean_str(n) for n in reserved(hlsl_names, "hlsl")) + "\n\n")
         out.append("def mslReserved : List String := " + T.lean_list(lean_str(n) for n in reserved(msl_names, "msl")) + "\n")
         out.append(T.footer("MetaTables"))
